@@ -133,4 +133,15 @@ def early_arrival(rng):
                 sup="sup")
 
 
-FAMILIES = {"early_arrival": early_arrival, "fast_chain": fast_chain, "rare_overrun": rare_overrun, "blocking_tie": blocking_tie, "advance_mixed": advance_mixed, "fast_node": fast_node, "same_generation_pair": same_generation_pair, "slow_side_node": slow_side_node, "slow_producer": slow_producer, "long_sink": long_sink}
+def jitter_chain(rng):
+    """A sender that itself has an input, feeding a slower consumer over a connection whose jitter is several sender periods: consecutive
+    messages are FIFO-clamped all the time, and the sender's time-stamp announcements run ahead of its messages by an amount that depends
+    on the thread schedule (seeded change C02-e let message delivery rewind the clamp)."""
+    P = rng.choice([8, 4])
+    return dict(nodes=[_n("src", 0, 4, 0, [0, 1]), _n("mid", 1, 2, 0, [0, 1]), _n("sup", 2, P, 1, [1, 2])],
+                conns=[_c("src", "mid", window=2, delay=0, cdist=[0, 1]), _c("mid", "sup", window=3, delay=2, cdist=[0, 2, 5, 9]),
+                       _c("sup", "src", name="in_sup", skip=True, window=1, delay=0, cdist=[0, 1])],
+                sup="sup")
+
+
+FAMILIES = {"jitter_chain": jitter_chain, "early_arrival": early_arrival, "fast_chain": fast_chain, "rare_overrun": rare_overrun, "blocking_tie": blocking_tie, "advance_mixed": advance_mixed, "fast_node": fast_node, "same_generation_pair": same_generation_pair, "slow_side_node": slow_side_node, "slow_producer": slow_producer, "long_sink": long_sink}
